@@ -71,6 +71,8 @@ class Ctx:
                 self.notes.append("duplicate function keys in %s: %s" % (config, sorted(v.prog.duplicate_keys)))
             if v.prog.alias_report:
                 self.notes.append("moved / renamed functions (config %s): %s" % (config, "; ".join(v.prog.alias_report)))
+            if v.prog.closure_report:
+                self.notes.append("closure expansion (config %s): %s" % (config, "; ".join(v.prog.closure_report)))
             r = v.prog.inline_report
             if r and (r["inlined"] or r["kept"] or r["skipped"]):
                 self.notes.append("new private helpers (config %s): %d call site(s) inlined %s; dropped after inlining %s; kept as functions %s; not inlined %s"
